@@ -1638,8 +1638,7 @@ class AbstractUnit:
                 else:
                     raise ValueError("undefined outlet; must pass outlet when outlets are fixed and multiple are available")
             else:
-                self.outs.append(stream)
-                added_unit = True
+                added_unit = True # Stream becomes an outlet once its source lets go of it
         else:
             if isinstance(outlet, AbstractStream):
                 if outlet.source is not self:
@@ -1662,6 +1661,7 @@ class AbstractUnit:
             else:
                 inlet = self.outs[inlet]
             source.outs.replace(stream, inlet)
+        if added_unit: self.outs.append(stream)
     
     @ignore_docking_warnings
     def take_place_of(self, other, discard=False):
